@@ -263,7 +263,10 @@ def fixedpoint_vs_fixedinterval(ctx, cfg, d, field, u0s, t0, t1, tol):
         if b < t1 and ctx.rng.random() < 0.6:
             # one, two or three checkpoints strictly inside the same step
             k = int(ctx.rng.integers(1, 4))
-            cps += sorted(float(a + (b - a) * x) for x in ctx.rng.uniform(0.1, 0.9, size=k))
+            # (kept at least 2% of the step apart: closer pairs run into the rounding amplification D11, which is C05's business)
+            xs = sorted(float(x) for x in ctx.rng.uniform(0.1, 0.9, size=k))
+            xs = [x for i, x in enumerate(xs) if i == 0 or x - xs[i - 1] >= 0.02]
+            cps += [float(a + (b - a) * x) for x in xs]
     cps = [c_ for c_ in cps if t0 < c_ < t1][:6]
     ctx.count(f"fp-vs-fi checkpoints={len(cps)}")
     if not cps:
